@@ -133,7 +133,7 @@ def _parse(out, harnesses):
     return res
 
 
-def run_harnesses(harnesses, repo, tier='quick', timeout_s=None, jobs=12):
+def _run_harnesses_unlocked(harnesses, repo, tier='quick', timeout_s=None, jobs=12):
     _load_classes()
     t0 = time.time()
     missing = assemble(repo)
@@ -211,6 +211,26 @@ def warm(repo='/repo'):
     cmd = ['cargo', 'kani', '-Z', 'function-contracts', '-Z', 'stubbing', '--only-codegen']
     p = subprocess.run(cmd, cwd=KSRC, env=_env(), capture_output=True, text=True, timeout=1800)
     return p.returncode
+
+
+
+class _lane_lock:
+    """one run of this lane at a time (several checks may be started in parallel; they share the scratch crate)"""
+    def __enter__(self):
+        import fcntl
+        os.makedirs(os.path.join(VERIF, 'build'), exist_ok=True)
+        self.f = open(os.path.join(VERIF, 'build', '.kani.lock'), 'w')
+        fcntl.flock(self.f, fcntl.LOCK_EX)
+        return self
+    def __exit__(self, *a):
+        import fcntl
+        fcntl.flock(self.f, fcntl.LOCK_UN)
+        self.f.close()
+
+
+def run_harnesses(*args, **kwargs):
+    with _lane_lock():
+        return _run_harnesses_unlocked(*args, **kwargs)
 
 
 if __name__ == '__main__':
